@@ -89,6 +89,17 @@ def run(ctx):
     if res.get("_died") and "test timed out" in res.get("_stdout_tail", ""):
         raise lib.Inconclusive("harness timed out (not a crash of the code under test)")
     lib.collect_go(ctx, res, died_key="panic:process")
+    # "garbage never breaks a session", concurrent form: frames of new streams arriving on several connections while a
+    # closing notice / close is processed on another (shared stress driver, see harness/multiplex/shared_muxrace_test.go)
+    race = lib.run_go(ctx, "multiplex", "TestVerifMuxRecvCloseRace", timeout=900, tag="recv_close_race")
+    for v in race.get("violations", []):
+        v = dict(v)
+        v["key"] = "concurrent:" + v["key"]
+        ctx.violations.append(v)
+    if race.get("_died"):
+        ctx.violations.append({"key": "panic:recv-vs-close", "what": "the process died while frames were received concurrently with a session close",
+                               "replay": race.get("running")})
+    ctx.log("recv-vs-close race: %d rounds" % race["stats"].get("rounds", 0))
     st = res["stats"]
     uncovered = sorted(k for k in st if k.startswith("uncovered:"))
     drift = sorted(k for k in st if k.startswith("drift:"))
